@@ -137,10 +137,10 @@ Judge(r) ==
            lk == Leak(r.plain, (Hidden \cup Markup) \ allowed) IN
        [id |-> r.id, bind |-> "ok", feat |-> exp.feat, c01 |-> v.c01, c02 |-> v.c02,
         c03 |-> IF v.c03 = "ok" /\ lk # "ok" THEN lk ELSE v.c03, c04 |-> v.c04, c05 |-> v.c05,
-        c08 |-> IF v.c01 # "ok" THEN "skipped" ELSE C08(exp, r.plain, r.map, r.diags),
+        c08 |-> IF Len(r.plain) # Len(r.map) THEN "skipped" ELSE C08(exp, r.plain, r.map, r.diags),
         c18 |-> IF ~r.extr THEN "skipped" ELSE IF v.c03 # "ok" THEN v.c03 ELSE IF lk # "ok" THEN lk ELSE v.c02,
-        c10 |-> IF v.c01 # "ok" THEN "skipped" ELSE C10Walk(exp.fml, 1, r.plain, r.map, LangKey(r.lang), 0),
-        c11 |-> IF v.c01 # "ok" THEN "skipped" ELSE C11Walk(exp.eqs, 1, r.plain, r.map, LangKey(r.lang), r.seqs, 0)]
+        c10 |-> IF Len(r.plain) # Len(r.map) THEN "skipped" ELSE C10Walk(exp.fml, 1, r.plain, r.map, LangKey(r.lang), 0),
+        c11 |-> IF Len(r.plain) # Len(r.map) THEN "skipped" ELSE C11Walk(exp.eqs, 1, r.plain, r.map, LangKey(r.lang), r.seqs, 0)]
 Next == cur <= Len(Recs) /\ cur' = cur + 1 /\ PrintT("@V" \o ToJson(Judge(Recs[cur])))
 Spec == Init /\ [][Next]_cur
 Done == cur = Len(Recs) + 1
